@@ -526,7 +526,10 @@ protected:
         SegmentData(Segment &s) : slope(s.slope), intercept(s.intercept) {}
 
         inline size_t operator()(const K &origin, const K &k) const {
-            auto pos = int64_t(slope * (k - origin)) + intercept;
+            auto p = slope * (k - origin);
+            if (p >= Floating(std::numeric_limits<int64_t>::max()))
+                return std::numeric_limits<int64_t>::max(); // beyond any position; avoids an out-of-range conversion
+            auto pos = int64_t(p) + intercept;
             return pos > 0 ? size_t(pos) : 0ull;
         }
     };
